@@ -52,7 +52,8 @@ def _valid_taxonomies():
     from harness import C15
     from harness import stagechecks as SC
     return Harness('run_mapping_childless_inner_node', C15.h_outputs,
-                   setup=SC.setup, cases=[{'names': True, 'childless': True}],
+                   setup=SC.setup, cases=[{'names': True, 'childless': True},
+                                          {'names': False, 'childless': 130}],
                    funcs=['from_specified_markers.run_mapping',
                           'score_utils.read_precomputed_stats',
                           'matching.get_leaf_means',
